@@ -413,3 +413,19 @@ package labelmap
 //@   prop C11
 //@   structural
 
+
+// addMergeToMapping (C08: the supervoxel-to-body mapping agrees with the indices after a merge): EVERY
+// supervoxel of the merged set - including one whose id equals the target - is mapped to the target in
+// the in-memory map, and the logged operation carries the same set (so a restart rebuilds the same map).
+// A supervoxel whose id equals the target can carry an older mapping to another body (cleaved out and merged
+// back), so "identity mappings are implicit" does not hold.
+//@ func addMergeToMapping
+//@   prop C08 C03
+//@   safety_off
+//@   calls_havoc
+//@   modifies *
+//@   ghost M set[uint64] = empty
+//@   ghostset at "lmap.setMapping(v, supervoxel, toLabel)": M = setadd(M, supervoxel)
+//@   invariant loop 1: forall s uint64 :: visited1[s] ==> M[s]
+//@   assert at "op := labels.MappingOp{": forall s uint64 :: has(supervoxels, s) ==> M[s]
+//@   assert at "return labels.LogMapping(d, v, op)": op.Original == supervoxels && op.Mapped == toLabel
